@@ -92,3 +92,11 @@ RULES = [
     ("C05.c", "at most one Runnable per task; re-poll instead of re-schedule", rule_c),
     ("C05.d", "ordering floors of wake / run", rule_d),
 ]
+
+
+def rule_mustpass(ctx):
+    from . import mustpass
+    mustpass.check(ctx, ['recv-runs-handler'])
+
+
+RULES.append(("C05.e", "must-pass-through: no path around the effects this property rests on (added fast paths / early returns)", rule_mustpass))
